@@ -19,6 +19,13 @@ pub mod gen;
 pub mod itermodel;
 pub mod play;
 
+/// chess-wasm is a cdylib, so its source is compiled into the harness as a module: the Ok paths
+/// of its entry points run natively (the error paths construct a JsError, which only exists
+/// on wasm targets, and are never taken by the harness)
+#[allow(dead_code, unused)]
+#[path = "/repo/chess-wasm/src/lib.rs"]
+pub mod wasm_front;
+
 use fw::CheckDef;
 
 pub fn registry() -> Vec<&'static CheckDef> {
